@@ -64,7 +64,7 @@ func corporaFor(prop, tier string) []*Case {
 }
 
 // RunGen is the check behind the generator-family properties.
-func RunGen(prop, tier string) (int, error) {
+func RunGen(prop, tier string, extra ...func(sc *core.Scratch, ev *core.Evidence, rep *core.Reporter) (int, error)) (int, error) {
 	ev := core.NewEvidence(prop, tier, "model_checking")
 	rep := core.NewReporter(prop)
 	sc, err := core.NewScratch("gen-" + prop)
@@ -73,6 +73,17 @@ func RunGen(prop, tier string) (int, error) {
 	}
 	defer sc.Cleanup()
 	code, err := runGen(prop, tier, sc, ev, rep)
+	for _, x := range extra {
+		if err != nil || code == 2 {
+			break
+		}
+		c2, e2 := x(sc, ev, rep)
+		if e2 != nil {
+			code, err = 2, e2
+		} else if c2 > code {
+			code = c2
+		}
+	}
 	ev.Violations = rep.Count()
 	if werr := ev.Write(); werr != nil && err == nil {
 		err = werr
